@@ -4,7 +4,7 @@
 # so that background runs that rebuild from /repo are not disturbed), runs the
 # named checks against it with a short budget, removes the worktree afterwards.
 patch=$(readlink -f "$1"); secs=$2; shift 2
-cd /verif || exit 2
+cd "$(dirname "$(readlink -f "$0")")/.." || exit 2
 wt=/tmp/tp_repo.$$
 git -C /repo worktree add -q --detach "$wt" HEAD || exit 2
 trap 'git -C /repo worktree remove --force "$wt" 2>/dev/null' EXIT
